@@ -117,7 +117,18 @@ func exactBatches(rng *rand.Rand, g *world.Gen) func(uint32, *world.BlockSpec) {
 			if conv == x.asset {
 				conv = 2 + (conv-1)%20
 			}
-			switch rng.Intn(11) {
+			switch rng.Intn(13) {
+			case 11: // forged: second transaction spends from someone else's address, only the first signer signs
+				if len(hs) > 1 {
+					v := hs[rng.Intn(len(hs))]
+					if v.ref != x.ref {
+						vr := v.ref
+						bs.Tx = append(bs.Tx, txFrom(x.ref, nextNonce(), xfer(x.asset, 1, other), world.TxPart{Asset: v.asset, Amt: v.amt / 2, InAddr: &vr, Outs: []world.Out{{To: x.ref, Amt: v.amt / 2}}}))
+					}
+				}
+			case 12: // the same recipient named in several outputs of one transaction
+				a, b2 := B/3, B/4
+				bs.Tx = append(bs.Tx, txFrom(x.ref, nextNonce(), world.TxPart{Asset: x.asset, Amt: a + b2 + 1, Outs: []world.Out{{To: other, Amt: a}, {To: other, Amt: b2}, {To: other, Amt: 1}}}))
 			case 0: // two debits summing to balance+1
 				bs.Tx = append(bs.Tx, txFrom(x.ref, nextNonce(), xfer(x.asset, B/2+1, other), xfer(x.asset, B-B/2, other)))
 			case 1: // two debits summing to the balance exactly
@@ -341,7 +352,13 @@ func pegRequests(rng *rand.Rand, g *world.Gen) func(uint32, *world.BlockSpec) {
 				continue
 			}
 			parts := []world.TxPart{{Asset: x.asset, Amt: amt, Conv: model.PEG}}
-			switch rng.Intn(6) {
+			switch rng.Intn(7) {
+			case 6: // identical requests inside one batch (same entry hash, different index): a tie the dust rule must break
+				if amt <= x.amt/3 {
+					parts = append(parts, world.TxPart{Asset: x.asset, Amt: amt, Conv: model.PEG}, world.TxPart{Asset: x.asset, Amt: amt, Conv: model.PEG})
+				} else if amt <= x.amt/2 {
+					parts = append(parts, world.TxPart{Asset: x.asset, Amt: amt, Conv: model.PEG})
+				}
 			case 0: // a second request in the same batch
 				parts = append(parts, world.TxPart{Asset: x.asset, Amt: (x.amt - amt) / 2, Conv: model.PEG})
 			case 1: // next to a transfer
